@@ -116,10 +116,11 @@ type For struct {
 
 // ForIn: Var != "" renders for (var Var in Obj), else for (LHS in Obj).
 type ForIn struct {
-	Var  string
-	LHS  Expr
-	Obj  Expr
-	Body Stmt
+	Var     string
+	VarInit Expr // initialiser of `for (var Var = VarInit in Obj)` (12.6.4, second production); may be nil
+	LHS     Expr
+	Obj     Expr
+	Body    Stmt
 }
 type While struct {
 	Test Expr
@@ -634,6 +635,13 @@ func renderStmt(sb *strings.Builder, s Stmt) {
 		sb.WriteString("for (")
 		if s.Var != "" {
 			sb.WriteString("var " + s.Var)
+			if s.VarInit != nil {
+				t := RenderExpr(s.VarInit)
+				if precOf(s.VarInit) < pCall || strings.Contains(t, " in ") {
+					t = "(" + t + ")"
+				}
+				sb.WriteString(" = " + t)
+			}
 		} else {
 			renderExpr(sb, s.LHS, pCall)
 		}
